@@ -743,6 +743,24 @@ class Exec:
         return Val("arr", r, T("arr", elem=et, ndim=a0.ndim))
 
     def ev_Compare(self, n):
+        if self.c.py_mode and len(n.ops) == 1 and isinstance(n.left, ast.Name) and \
+                isinstance(n.ops[0], (ast.Eq, ast.NotEq, ast.In, ast.NotIn, ast.Is, ast.IsNot)):
+            # comparison of an opaque name with a literal (mode strings ...): the SAME unknown truth value every time
+            # the same comparison is evaluated while the name is not rebound
+            rc = n.comparators[0]
+            lit = isinstance(rc, ast.Constant) and isinstance(rc.value, str) or \
+                (isinstance(rc, (ast.List, ast.Tuple)) and all(isinstance(e, ast.Constant) for e in rc.elts))
+            cur = self.vars.get(n.left.id)
+            if lit and (cur is None or cur.k == "obj") and n.left.id not in self.bound_vars and not self.spec_mode:
+                ver = self.labels.get(("rebind", n.left.id), 0)
+                key = ("litcmp", n.left.id, ver, ast.unparse(rc))
+                if key not in self.labels:
+                    t = self.fresh("truthy", B)
+                    self.labels.setdefault(("truthy",), []).append(t)
+                    self.labels[key] = t
+                t = self.labels[key]
+                neg = isinstance(n.ops[0], (ast.NotEq, ast.NotIn, ast.IsNot))
+                return self.mk_bool(z3.Not(t) if neg else t)
         if self.c.py_mode and len(n.ops) == 1:
             l0, r0 = self.ev(n.left), self.ev(n.comparators[0])
             if l0.k == "arr" or r0.k == "arr":
@@ -1761,6 +1779,8 @@ class Exec:
                 v = self.make_input(tgt.id, self.c.inputs[tgt.id])
             self.vars[tgt.id] = v
             return
+        if isinstance(tgt, ast.Name) and self.c.py_mode:
+            self.labels[("rebind", tgt.id)] = self.labels.get(("rebind", tgt.id), 0) + 1
         if isinstance(tgt, ast.Name):
             ty = self.types.get(tgt.id)
             if ty is None and val.k in ("int", "float", "bool", "arr", "obj", "tuple", "func", "none", "ptr", "row", "alloca"):
